@@ -26,6 +26,7 @@ class Tracker:
         self.dialect = dialect
         self.comma = comma
         self.msgs = []           # real messages, in order
+        self.at_arrival = []     # how each of them read when it arrived
         self.lines = []
         self.dead_seen = {}      # (conn name, id, gen) -> True once observed dead (monotone-death check)
         self.warnings = 0
@@ -68,12 +69,14 @@ class Tracker:
             self.parser.handle_message(conn_id, msg)
             rec = self.world.step(spec)
             self.msgs.append(msg)
+            self.at_arrival.append(str(msg))
             self.warnings += len(env.log_capture.take())
             return msg, rec
         conn_id, msg = self.parse.message(line)
         self.parser.handle_message(conn_id, msg)
         rec = self.world.step(spec)
         self.msgs.append(msg)
+        self.at_arrival.append(str(msg))
         self.warnings += len(env.log_capture.take())
         return msg, rec
 
@@ -92,6 +95,7 @@ class GdbTracker(Tracker):
         self.dialect = 'gdb-shaped'
         self.comma = False
         self.msgs, self.lines = [], []
+        self.at_arrival = []
         self.dead_seen = {}
         self.warnings = 0
         self.vprefix = vprefix
@@ -122,6 +126,7 @@ class GdbTracker(Tracker):
         if len(got) != 1:
             raise GdbModeLost('%d messages reached the controller for closure %s' % (len(got), self.lines[-1]))
         self.msgs.append(got[0])
+        self.at_arrival.append(str(got[0]))
         self.warnings += len(env.log_capture.take())
         return got[0], rec
 
@@ -204,6 +209,8 @@ def check_attribution(tr, msg, rec, res, tag=''):
     nothing else in the table changed; labels on the rendered line are the model's."""
     from core import wl
     m = rec['m']
+    if len(tr.msgs) <= 120 or len(tr.msgs) % 50 == 0:
+        check_printed_again(tr, res, tag)
     gdb_sent_unseen = tag == ':gdb-mode' and rec['target'].ghost and m['sent']
     if rec['target'].ghost:
         # creation never seen (mid-session log): stays unresolved, known by what the line says - in GDB mode a sent closure does
@@ -266,6 +273,20 @@ def check_attribution(tr, msg, rec, res, tag=''):
     elif not re.fullmatch(rx, line):
         res.bad('rendered-line' + tag, 'shown %r, expected to match %r' % (line, rx))
     res.evals += 1
+
+
+def check_printed_again(tr, res, tag=''):
+    """what a message says about objects is settled when it arrives: printed again later (`list` does that) every earlier line
+    reads as it did then - whatever was created, destroyed or re-used since.  All of a short history, the recent and a sample of
+    the older lines of a long one."""
+    n = len(tr.msgs)
+    idx = range(n) if n <= 80 else sorted(set(range(n - 40, n)) | set(range(0, n - 40, 9)))
+    for i in idx:
+        if i < len(tr.at_arrival):
+            now = str(tr.msgs[i])
+            if now != tr.at_arrival[i]:
+                res.bad('earlier-line-reads-differently-later' + tag, 'message %d read %r when it arrived and reads %r after message %d' % (i, tr.at_arrival[i], now, n - 1))
+                return
 
 
 def check_lifetimes(tr, msg, rec, res, tag=''):
